@@ -190,6 +190,12 @@ class FieldData:
       if (fieldname == self.__class__.STORAGE_KEY) or \
         (self.__class__.STORAGE_KEY == "name" and \
         fieldname == self.__class__.NAME_FIELD):
+         if gfapy.is_placeholder(value) and \
+             self.record_type not in ["L", "C"] and self.all_references:
+           # (other lines mention the line by its identifier)
+           raise gfapy.RuntimeError(
+             "Line: {}\n".format(str(self))+
+             "cannot be made unnamed: other lines refer to it")
          if value is not None and not gfapy.is_placeholder(value):
            previous = self._gfa.line(value)
            if previous is not None and previous is not self:
